@@ -69,14 +69,18 @@ P_RUN = "pending-only-for-running-trials"
 P_OBS = "pending-only-at-levels-not-yet-observed-within-current-job"
 P_SET = "pending-set-is-exactly-the-next-levels-of-running-trials-per-policy"
 P_END = "no-pending-left-after-trial-pauses-stops-completes-or-fails"
+PB_EXC = "pasha-with-several-brackets-raises-no-exception"
+PB_CAP = "pasha-with-several-brackets-new-trial-first-milestone-within-resource-cap"
 
 CLAUSES = [
     C_EXC, C_RL, C_SUG, C_BRK, C_PAUSE, C_MAXT, C_TOLD_NEW, C_TOLD_RES, C_RES_PAUSED, C_RES_Q, C_RES_COST,
     C_RES_RUSH, C_RES_BEST, C_RES_HIGH, C_NEW, C_Q0, C_CAP, C_PCAP, C_TWIN, C_TOTC,
-    D_ONE, D_VAL, D_LEV, D_OFFRUNG, D_LOWRUNG, P_RUN, P_OBS, P_SET, P_END,
+    D_ONE, D_VAL, D_LEV, D_OFFRUNG, D_LOWRUNG, P_RUN, P_OBS, P_SET, P_END, PB_EXC, PB_CAP,
 ]
 # clauses whose violation does not end the scenario (the reference ledger stays valid)
 NON_FATAL = {D_OFFRUNG, D_LOWRUNG}
+# clauses with scenarios of their own (discrepancies on the unchanged tree are reported under these names only)
+KNOWN_OPEN = {D_OFFRUNG, D_LOWRUNG, PB_EXC, PB_CAP}
 MAX_VIOL = 5
 PROMO_TYPES = ("promotion", "pasha", "rush_promotion", "cost_promotion")
 
@@ -85,12 +89,41 @@ class _Abort(Exception):
     pass
 
 
+class _OrderedSet(set):
+    """a set that iterates in insertion order (any order is a legal set order; this one does not depend on
+    PYTHONHASHSEED)"""
+
+    def __init__(self, items=()):
+        super().__init__()
+        self._order = []
+        for x in items:
+            self.add(x)
+
+    def add(self, x):
+        if x not in self:
+            self._order.append(x)
+        super().add(x)
+
+    def __iter__(self):
+        return iter(self._order)
+
+
+class _SetDict(dict):
+    """PASHA keeps ``epoch -> set(trial_id strings)`` and iterates over pairs of such a set; string hashing is
+    randomised per process, which would make the noise estimate (and this monitor) differ from run to run"""
+
+    def __setitem__(self, k, v):
+        if type(v) is set:
+            v = _OrderedSet(v)
+        super().__setitem__(k, v)
+
+
 class Recorder:
     def __init__(self):
         self.count = {c: 0 for c in CLAUSES}
         self.viol = {c: [] for c in CLAUSES}
         self.total = 0
-        self.cover = {"q0": 0, "tie": 0, "eps": 0, "twin_steps": 0, "resume": 0, "new_blocked": 0}
+        self.cover = {"q0": 0, "tie": 0, "eps": 0, "twin_steps": 0, "resume": 0}
 
     def check(self, clause, ok, ctx=None, **details):
         self.count[clause] += 1
@@ -237,9 +270,15 @@ class Sim:
         self.bayes = spec["searcher"] == "bayesopt"
         tk = spec["table"]
         self.table = make_table(tk["kind"], tk["seed"], self.max_t, tk.get("arg"))
+        if tk["kind"] == "pasha_directed" and self.mode == "max":
+            self.table = -self.table  # the table is designed in the minimisation convention
         self.costs = make_costs(spec.get("cost_kind", "generic"), tk["seed"], self.max_t)
         self.step = 0
         self.log = []
+        # PASHA with more than one bracket is judged by clauses of its own
+        pb = self.type == "pasha" and spec["brackets"] > 1
+        self.c_exc = PB_EXC if pb else C_EXC
+        self.c_cap_new = PB_CAP if pb else C_CAP
         self.sched = self._make(self.mode)
         self.twin = None
         if spec.get("twin"):
@@ -285,7 +324,11 @@ class Sim:
             kw["search_options"] = {"num_init_random": 10 ** 6, "debug_log": False, "map_reward": "minus_x"}
         else:
             kw["search_options"] = {"debug_log": False}
-        return self.call(self.lib["HyperbandScheduler"], cs, **kw)
+        sched = self.call(self.lib["HyperbandScheduler"], cs, **kw)
+        if self.type == "pasha":
+            for rsys in sched.terminator._rung_systems:
+                rsys.epoch_to_trials = _SetDict()  # determinism only, see _SetDict
+        return sched
 
     def call(self, fn, *a, **k):
         try:
@@ -293,9 +336,9 @@ class Sim:
         except _Abort:
             raise
         except Exception as e:  # noqa
-            self.rec.check(C_EXC, False, self.ctx, where=getattr(fn, "__name__", str(fn)), error=repr(e)[:300],
+            self.rec.check(self.c_exc, False, self.ctx, where=getattr(fn, "__name__", str(fn)), error=repr(e)[:300],
                            tb=traceback.format_exc()[-700:])
-        self.rec.check(C_EXC, True)
+        self.rec.check(self.c_exc, True)
         return out
 
     # reference helpers ----------------------------------------------------------------------------------
@@ -313,7 +356,7 @@ class Sim:
     def cap(self):
         if self.type != "pasha":
             return self.max_t
-        return self.sched.terminator._rung_systems[0]._effective_max_t()
+        return self.sched.terminator._rung_systems[0].current_max_t
 
     def better(self, a, b):
         """metric a strictly better than metric b"""
@@ -392,17 +435,17 @@ class Sim:
             self.log.append(["suggest", "new", nid, "bracket", b])
             if self.promo:
                 sure, ties = self.admissible(sysidx, cap)
-                if sure is not None:
-                    rec.cover["new_blocked"] += 1
                 self._q0(sure, ties, None)
                 rec.check(C_NEW, sure is None, self.ctx, eligible=sure, cap=cap,
                           rung=self._dump(sysidx, sure["level"]) if sure else None)
                 if ties:
-                    self.ambiguous = True
                     rec.cover["tie"] += 1
-                rec.check(C_CAP, fm <= cap or self.type != "pasha", self.ctx, first_milestone=fm, cap=cap)
+                    if any(s["n"] > 1 for s in ties):
+                        self.ambiguous = True
+                rec.check(self.c_cap_new, fm <= cap, self.ctx, first_milestone=fm, cap=cap, bracket=b)
             if self.mra and self.promo:
                 rec.check(C_TOLD_NEW, sug.config.get(MRA) == fm, self.ctx, told=sug.config.get(MRA), expected=fm)
+            self.twin_cmp("suggest", self._sug_key(sug), self._sug_key(sug2))
             trial = L["Trial"](trial_id=nid, config=dict(sug.config), creation_time=datetime(2024, 1, 1))
             self.call(self.sched.on_trial_add, trial)
             t = {"tid": nid, "bracket": b, "sysidx": sysidx, "state": "running", "m": fm, "resume_from": None,
@@ -413,7 +456,6 @@ class Sim:
                 self.call(self.twin.on_trial_add, t["trial2"])
             self.trials[nid] = t
             self.next_id += 1
-            self.twin_cmp("suggest", self._sug_key(sug), self._sug_key(sug2))
             self.after_event(None)
             return nid
         # resume
@@ -450,8 +492,12 @@ class Sim:
                 cfg.get(k) == v for k, v in t["config0"].items() if k != MRA)
             rec.check(C_TOLD_RES, ok, self.ctx, told=cfg, expected_target=nx, original=t["config0"])
         if stT["status"] == "tie" or len(ties) > 0 or (sure is not None and len(sure["best"]) > 1):
-            self.ambiguous = True
             rec.cover["tie"] += 1
+            # (a rung with a single entry is a tie for the C04 clauses, but no round-off is involved: the two runs of
+            # a twin pair must still agree there)
+            if (stT["status"] == "tie" and stT["n"] > 1) or any(s["n"] > 1 for s in ties) or (
+                    sure is not None and len(sure["best"]) > 1):
+                self.ambiguous = True
         e["promoted"] = True
         t.update(state="running", m=nx, resume_from=r, last=r, next=(r + 1 if self.ckpt else 1))
         t["start"] = t["next"]
@@ -587,7 +633,7 @@ class Sim:
             self.rec.check(C_PCAP, ok, self.ctx, cap=cap, previous=self.cap_prev, rung_levels=self.RL)
             self.cap_prev = cap
             if self.twin is not None:
-                self.twin_cmp("cap", cap, self.twin.terminator._rung_systems[0]._effective_max_t())
+                self.twin_cmp("cap", cap, self.twin.terminator._rung_systems[0].current_max_t)
             if self.sched.terminator._rung_systems[0].epsilon > 0:
                 self.rec.cover["eps"] += 1
         if self.bayes:
@@ -657,6 +703,9 @@ class Sim:
                 exp.add((tid, t["last"] + 1))
             else:
                 exp.update((tid, l) for l in range(t["last"] + 1, t["m"] + 1))
+        if ended is not None:
+            rec.check(P_END, not any(tid == ended for tid, _ in pend), self.ctx, trial=ended,
+                      state=self.trials[ended]["state"], pending=sorted(pend))
         for tid, l in pend:
             t = self.trials.get(tid)
             rec.check(P_RUN, t is not None and t["state"] == "running", self.ctx, pending=[tid, l],
@@ -665,9 +714,6 @@ class Sim:
                       observed=sorted(obs.get(tid, {})), last_level=t["last"], milestone=t["m"])
         rec.check(P_SET, len(pend) == len(set(pend)) and set(pend) == exp, self.ctx, pending=sorted(pend),
                   expected=sorted(exp), policy=self.policy, myopic=self.myopic)
-        if ended is not None:
-            rec.check(P_END, not any(tid == ended for tid, _ in pend), self.ctx, trial=ended,
-                      state=self.trials[ended]["state"], pending=sorted(pend))
 
     # schedules ---------------------------------------------------------------------------------------------
     def running(self):
@@ -677,9 +723,10 @@ class Sim:
         spec = self.spec
         if spec["schedule"] == "waves":
             for _ in range(spec["waves"]):
+                order = []
                 while len(self.running()) < spec["workers"]:
-                    self.suggest()
-                for tid in list(self.running()):
+                    order.append(self.suggest())
+                for tid in order:  # trials run one after the other, in the order they were scheduled
                     while self.trials[tid]["state"] == "running":
                         self.report(tid)
             return
@@ -747,24 +794,26 @@ def build_catalogue(tier, seed):
 
     # F1: enumerated metric tuples, wave schedule ------------------------------------------------------------
     combos = [("promotion", "min"), ("promotion", "max"), ("rush_promotion", "min"), ("pasha", "max"),
-              ("pasha", "min"), ("rush_promotion", "max")]
+              ("pasha", "min"), ("rush_promotion", "max"), ("cost_promotion", "min"), ("cost_promotion", "max")]
     rnames = ["g1e2m8", "g1e3m27", "g1i2m7"]
     tuples3 = list(itertools.product(GRID5, repeat=3))
     for i, tup in enumerate(tuples3):
         for j, (ty, mo) in enumerate(combos if thorough else [combos[i % len(combos)]]):
             cat.append(_base(family="enum3", type=ty, mode=mo, rung_name=rnames[(i + j) % 3], workers=3,
                              schedule="waves", waves=4, mra=bool((i + j) % 2), ckpt=bool((i // 2 + j) % 2),
-                             table={"kind": "enum", "seed": 0, "arg": list(tup)}, sched_seed=i))
+                             table={"kind": "enum", "seed": i, "arg": list(tup)}, sched_seed=i,
+                             cost_kind=("ints", "generic")[i % 2], rush_k=(0, 1, 2)[(i // 5) % 3]))
     tuples4 = list(itertools.product(GRID5, repeat=4))
     sel4 = tuples4 if thorough else [tuples4[k] for k in rs.choice(len(tuples4), 50, replace=False)]
     for i, tup in enumerate(sel4):
         ty, mo = combos[i % len(combos)]
         cat.append(_base(family="enum4", type=ty, mode=mo, rung_name=rnames[i % 3], workers=4, schedule="waves",
                          waves=3, mra=bool(i % 2), ckpt=bool((i // 2) % 2),
-                         table={"kind": "enum", "seed": 0, "arg": list(tup)}, sched_seed=i))
+                         table={"kind": "enum", "seed": i, "arg": list(tup)}, sched_seed=i,
+                         cost_kind=("ints", "skew")[i % 2], rush_k=(0, 2)[(i // 3) % 2]))
 
     # F2: random interleavings, random searcher (C04) --------------------------------------------------------
-    n2 = 520 if thorough else 130
+    n2 = 1400 if thorough else 300
     types = ["promotion", "cost_promotion", "rush_promotion", "pasha", "cost_promotion", "promotion"]
     kinds = ["generic", "signed", "grid0", "ints", "const", "grid0", "signed"]
     for i in range(n2):
@@ -781,7 +830,7 @@ def build_catalogue(tier, seed):
 
     # F3: GP multi-fidelity searcher (C14), all data policies -------------------------------------------------
     pols = [("rungs", False), ("all", False), ("all", True), ("rungs_and_last", False), ("rungs_and_last", True)]
-    reps = 4 if thorough else 1
+    reps = 7 if thorough else 2
     for rep in range(reps):
         for ty in ("promotion", "stopping"):
             for (pol, myo) in pols:
@@ -808,15 +857,22 @@ def build_catalogue(tier, seed):
                                  rush_k=int(rs.randint(0, 3)), p_fail=0.05, p_complete=0.08))
 
     # F4: PASHA, directed soft-ranking tables (epsilon band), twin run --------------------------------------
-    for i in range(16 if thorough else 6):
+    for i in range(24 if thorough else 8):
         g = (2, 3)[i % 2]
         cat.append(_base(family="pasha_directed", type="pasha", mode=("min", "max")[(i // 2) % 2],
                          rung_name="g2e2m16" if g == 2 else "g3e2m24", workers=8, schedule="waves", waves=3,
                          mra=bool(i % 3), ckpt=True, twin=True, sched_seed=s31(),
                          table={"kind": "pasha_directed", "seed": s31(), "arg": {"g": g}}))
 
+    # F6: PASHA with 2-3 brackets (clauses of their own) ---------------------------------------------------------
+    for i in range(24 if thorough else 8):
+        cat.append(_base(family="pasha_brackets", type="pasha", mode=("min", "max")[i % 2],
+                         rung_name=pick(["g1e2m8", "g2e2m16", "g1e3m27"]), brackets=2 + i % 2, workers=3, events=100,
+                         ev_seed=s31(), sched_seed=s31(), mra=bool(i % 4 < 2), ckpt=bool(i % 3),
+                         table={"kind": "curves", "seed": s31()}))
+
     # F5: PASHA, noisy crossing curves, twin run ---------------------------------------------------------------
-    for i in range(60 if thorough else 14):
+    for i in range(140 if thorough else 30):
         sched = "waves" if i % 2 == 0 else "random"
         cat.append(_base(family="pasha_curves", type="pasha", mode=("min", "max")[i % 2],
                          rung_name=pick(["g1e2m8", "g2e2m16", "g3e2m24", "g1e3m27"]),
@@ -849,11 +905,13 @@ def monitor_hyperband(tier="quick", seed=0):
     finally:
         logging.disable(prev_disable)
     violations = [v for c in CLAUSES for v in rec.viol[c]]
+    # an empty check must not look green (only a run that was cut short by violations of the fatal clauses may skip some)
+    cut_short = any(v["clause"] not in KNOWN_OPEN for v in violations)
     empty = [c for c in CLAUSES if rec.count[c] == 0]
-    if empty and not violations:
+    if empty and not cut_short:
         raise RuntimeError("clauses never exercised: %s" % empty)
-    for k in ("q0", "tie", "eps", "twin_steps", "resume", "new_blocked"):
-        if rec.cover[k] == 0 and not violations and k != "new_blocked":
+    for k in ("q0", "tie", "eps", "twin_steps", "resume"):
+        if rec.cover[k] == 0 and not cut_short:
             raise RuntimeError("coverage counter %r is zero (vacuous run)" % k)
     samples = []
     for f in ("enum3", "random", "gp", "pasha_directed"):
